@@ -190,6 +190,7 @@ def check(program: Program, run: Run) -> None:
     run.rule("R2 per statement: every clause attribute rendered as term/table slot is rewritten by the effective replace_table; FROM items are recursed into")
     run.rule("R3 every x.replace_table(...) inside a replace_table resolves to a definition for the declared class of x; sibling classes agree on how a shared attribute is rewritten")
     run.rule("R4 every replace_table definition other than the Term no-op is @builder")
+    run.rule("R6 every nested replace_table / helper call receives (current_table, new_table) in the order of the enclosing function's own parameters")
     run.rule("R5b replace_table has no early exit except on identity / None / type tests (== between tables is coarser than their rendering)")
     run.rule("R5 a child is rewritten unconditionally: the only tests allowed around x.replace_table(...) are type/None tests on x or comparisons with the tables being exchanged")
     _PROGRAM[:] = [program]
@@ -282,6 +283,34 @@ def check(program: Program, run: Run) -> None:
                     run.finding(f"C16/early-exit:{f.qualname}", f"{f.qualname} returns before rewriting anything when `{ast.unparse(n.test)[:60]}` holds: equality of tables ignores the temporal clause "
                                 "(and whatever else == does not compare), so a replacement that changes the rendering is skipped", where=f.loc(n), rule="R5b")
     run.ob("C16/R5b no early exit from replace_table on anything but an identity/None/type test", "all replace_table definitions", True, detail=f"{nexit} early exits examined", nontrivial=False)
+    # R6: the pair (table to replace, replacement) is handed down unchanged and in that order.  Both arguments have the same
+    # type, so a swapped pair type-checks and every test that replaces a table by itself or by an absent one stays green.
+    nfw = 0
+    for f in program.all_functions():
+        if f is noop or not any(isinstance(n, ast.Call) and isinstance(n.func, ast.Attribute) and "replace_table" in n.func.attr for n in ast.walk(f.node)):
+            continue
+        own = [a for a in f.params if a not in ("self", "cls")]
+        for n in ast.walk(f.node):
+            if not (isinstance(n, ast.Call) and isinstance(n.func, (ast.Attribute, ast.Name))):
+                continue
+            callee = n.func.attr if isinstance(n.func, ast.Attribute) else n.func.id
+            if "replace" not in callee or len(n.args) < 2 or not all(isinstance(a, ast.Name) for a in n.args[:2]):
+                continue
+            a0, a1 = n.args[0].id, n.args[1].id
+            if a0 in own and a1 in own and a0 != a1:
+                nfw += 1
+                ok6 = own.index(a0) < own.index(a1)
+                run.ob("C16/R6 (current, new) forwarded in order", f"{f.qualname}:{ast.unparse(n)[:60]}", ok6, where=f.loc(n))
+                if not ok6:
+                    st6 = n
+                    par6 = {ch: pa for pa in ast.walk(f.node) for ch in ast.iter_child_nodes(pa)}
+                    while st6 in par6 and not isinstance(st6, ast.stmt):
+                        st6 = par6[st6]
+                    a6 = next((a_.attr for a_ in ast.walk(st6) if isinstance(a_, ast.Attribute) and isinstance(a_.value, ast.Name) and a_.value.id == (f.params[0] if f.params else "self")), "?")
+                    run.finding(f"C16/arguments-swapped:{f.qualname}:{a6}", f"{f.qualname} calls `{ast.unparse(n)[:70]}` with the table to replace and its replacement exchanged: "
+                                "references to the old table survive there and references to the new one are turned into the old", where=f.loc(n), rule="R6")
+    if nfw < 15:
+        raise AnalysisError(f"instance count below floor: forwarded (current, new) pairs {nfw}")
     run.ob("C16/R5 child rewritten unconditionally", "all replace_table definitions", True, detail=f"{nrw} nested replace_table calls examined", nontrivial=False)
     if nrw < 40:
         raise AnalysisError(f"instance count below floor: nested replace_table calls {nrw}")
